@@ -1103,7 +1103,12 @@ class Median(GroupByShift):
     @functools.cached_property
     def npartitions(self):
         npartitions = self.frame.npartitions
-        if self.split_every is not None:
+        if (
+            self.split_every is not None
+            and self.need_to_shuffle
+            and not any(isinstance(b, Expr) for b in self.by)
+        ):
+            # only the shuffle on key columns repartitions the frame
             npartitions = max(npartitions // self.split_every, 1)
         return npartitions
 
